@@ -46,10 +46,15 @@ def biases(rng):
     return b
 
 
+ERR_FROM = [0]; ERR_TO = [0]
+ERROR_FAMILY = False
+
+
 def timeline(mode, rng_seed, sched_seed, err_step=-1):
     """mode: ('none',) | ('cvcs', threads, real)"""
     rng = cvlib.Rng(rng_seed)
     srng = cvlib.Rng(sched_seed)
+    NAT = globals()["NAT"] + (4 if err_step >= 0 else 0)      # (the failing variable has atoms of its own: nothing else sees the NaN coordinate)
     L = ["m.new %d" % NAT, "M.noclock", "m.opt tf_same 1", "m.opt smp %s" % ("cvcs" if mode[0] == "cvcs" else "none")]
     if mode[0] == "cvcs":
         L += ["m.opt threads %d" % mode[1], "m.opt realthreads %d" % int(mode[2])]
@@ -57,7 +62,7 @@ def timeline(mode, rng_seed, sched_seed, err_step=-1):
     if err_step >= 0:
         # a variable whose component fails at one step (a NaN coordinate makes the diagonalisation of the optimal rotation fail): the
         # other work items of that step must be computed all the same, in every order
-        vs.append(("m", "colvar {\n name m\n rmsd {\n  atoms { atomNumbers 6 7 8 9 }\n  refPositions (0.0, 0.0, 0.0) (1.0, 0.0, 0.0) (0.0, 1.0, 0.0) (0.0, 0.0, 1.0)\n }\n}\n"))
+        vs.append(("m", "colvar {\n name m\n rmsd {\n  atoms { atomNumbers 10 11 12 13 }\n  refPositions (0.0, 0.0, 0.0) (1.0, 0.0, 0.0) (0.0, 1.0, 0.0) (0.0, 0.0, 1.0)\n }\n}\n"))
     L.append(cfg("".join(t for _, t in vs)))
     nb = rng.randint(4, len(bs))
     chosen = bs[:nb]
@@ -84,7 +89,9 @@ def timeline(mode, rng_seed, sched_seed, err_step=-1):
             P[a] = [x + rng.uniform(-0.15, 0.15) for x in P[a]]
             L.append(pos(a, *P[a])); L.append(tf(a, rng.uniform(-2, 2), rng.uniform(-2, 2), rng.uniform(-2, 2)))
         if s == err_step:
-            L.append(pos(8, float("nan"), P[8][1], P[8][2]))
+            L.append(pos(11, float("nan"), P[11][1], P[11][2]))
+            ERR_FROM[0] = len(probes)          # probes of the failing step: only the variables' values are compared there (what the module does with
+                                               # energies and forces after a failed component is outside the property; the next steps are compared in full)
         if mode[0] == "cvcs":
             nitems = 12
             perm = list(range(nitems)); srng.shuffle(perm)
@@ -99,6 +106,8 @@ def timeline(mode, rng_seed, sched_seed, err_step=-1):
         if s in flag_at:
             # components of g switched off / on between two steps (`cv colvar g cvcflags`): the work items of the next steps change
             L.append("m.scriptq cv colvar g cvcflags " + esc(" ".join(str(x) for x in flag_at[s])))
+        if s == err_step:
+            ERR_TO[0] = len(probes)
         if s == swap_at:
             # a variable goes, another one with the same number of components comes (between two steps)
             L.append("m.scriptq cv colvar d delete")
@@ -171,16 +180,21 @@ def gen(rng, tier):
         cases.append({"lines": lines, "meta": {"kind": "schedules", "ref": refs, "variants": variants}, "nontrivial": True})
     # a step at which one component fails: threaded schedules compared with each other (the serial loop stops at the failing variable, the
     # threaded one does not: they are not compared at that step)
-    for k in range(2 if tier == "quick" else 12):
+    # WITHDRAWN (ERROR_FAMILY off): on the unchanged tree the outcome of a step at which the rmsd component is fed a NaN coordinate is not
+    # reproducible (the error is raised or not from run to run) and, when it is raised in all runs, the data the histogram bias accumulates at
+    # that step still differ between thread counts (leads/C12_error_step_schedule_dependence.txt).  Not characterised yet: no alarm is raised
+    # from it, and seeded change C12-5 (which needs such a step) is therefore not caught.
+    for k in range((2 if tier == "quick" else 12) if ERROR_FAMILY else 0):
         seed = rng.randint(1, 1 << 30); es = rng.randint(2, 6)
         L0, p0 = timeline(("cvcs", 1, False), seed, rng.randint(1, 1 << 30), err_step=es)
+        values_only = list(range(ERR_FROM[0], ERR_TO[0]))
         lines = list(L0); refs = list(p0); variants = []
         for md in [("cvcs", 2, False), ("cvcs", 3, False), ("cvcs", 4, False)]:
             Lv, pv = timeline(md, seed, rng.randint(1, 1 << 30), err_step=es)
             off = len(lines)
             lines += Lv
             variants.append({"mode": [md[0], md[1], bool(md[2])], "probes": [x + off for x in pv]})
-        cases.append({"lines": lines, "meta": {"kind": "schedules", "ref": refs, "variants": variants, "threaded_ref": True, "err_step": es}, "nontrivial": True})
+        cases.append({"lines": lines, "meta": {"kind": "schedules", "ref": refs, "variants": variants, "threaded_ref": True, "err_step": es, "values_only": values_only}, "nontrivial": True})
     return cases
 
 
@@ -206,8 +220,17 @@ def oracle(case, out):
     for v in m["variants"]:
         if len(v["probes"]) != len(m["ref"]):
             return ["internal: probe lists differ in length"]
-        for a, b in zip(m["ref"], v["probes"]):
+        if m.get("values_only"):
+            # the comparison is made only when the component did raise its error in both runs (whether a NaN coordinate makes the
+            # diagonalisation fail is not reproducible from run to run on the unchanged tree; a step without the error is an ordinary step)
+            p0 = m["values_only"][0]
+            r0 = out.get((m["ref"][p0], "rc", 1)); r1 = out.get((v["probes"][p0], "rc", 1))
+            if r0 != ["i1"] or r1 != ["i1"]:
+                continue
+        for pi, (a, b) in enumerate(zip(m["ref"], v["probes"])):
             ra, rb = lines_at(out, a), lines_at(out, b)
+            if pi in m.get("values_only", ()):
+                ra = {k: v_ for k, v_ in ra.items() if k[0] == "x"}; rb = {k: v_ for k, v_ in rb.items() if k[0] == "x"}
             if ra != rb:
                 what = case["lines"][a - 1][:40]
                 diff = [k for k in set(ra) | set(rb) if ra.get(k) != rb.get(k)]
